@@ -57,7 +57,7 @@ def job_p2s(J, gname, n):
         pw = SymBytes.fresh("pw", n)
         ctx.data["pw"] = pw
         return g.password_to_scalar(pw)
-    for r in J.explore(h):
+    for r in J.explore(h, fallback=("p2s", dict(group=gname, pw=bytes(n)))):
         pw = r.ctx.data["pw"]
         J.reach(r)
         cex = lambda m, pw=pw: dict(group=gname, pw=pw.model_bytes(m))
@@ -104,7 +104,7 @@ def job_arb_int(J, gname, n):
         seed = SymBytes.fresh("seed", n)
         ctx.data["seed"] = seed
         return g.arbitrary_element(seed)
-    for r in J.explore(h):
+    for r in J.explore(h, fallback=("arb_int", dict(group=gname, seed=bytes(n)))):
         seed = r.ctx.data["seed"]
         J.reach(r)
         cex = lambda m, seed=seed: dict(group=gname, seed=seed.model_bytes(m))
@@ -175,7 +175,7 @@ def job_arb_ed(J, n, incs):
         finally:
             E.xrecover, E.isoncurve, E.xform_affine_to_extended = saved
             A.uninstall()
-    for r in J.explore(h, max_paths=200):
+    for r in J.explore(h, max_paths=200, fallback=("arb_ed", dict(seed=bytes(n)))):
         w = r.ctx.data["w"]
         J.reach(r)
         cex = lambda m, w=w: dict(seed=w["seed"].model_bytes(m))
@@ -248,7 +248,12 @@ def _real(group):
 
 def oracle_p2s(group, pw):
     g, rg = _real(group), _refgroup(group)
-    pool = [pw, pw + b"\x00", b"", bytes(64), bytes(65), b"\xff" * len(pw), b"pw", bytes(range(130))]
+    pool = [pw, pw + b"\x00", b"", bytes(64), bytes(65), b"\xff" * len(pw), b"pw", bytes(range(130)),
+            # byte strings a text-minded change might treat specially: non-NFC UTF-8, compatibility characters, case,
+            # surrounding whitespace, NUL, BOMs, invalid UTF-8
+            b"cafe\xcc\x81", b"\xe2\x84\xab", b"x" * 70 + b"o\xcc\x88", "\ufb01".encode("utf-8"), b"PassWord", b" pw ", b"pw\n",
+            b"pw\x00", b"\x00pw", b"\xef\xbb\xbfpw", b"\xff\xfepw", b"\xc3\x28", "pässwörd".encode("utf-8"),
+            "pässwörd".encode("latin-1"), b"0x7077", b"7077"]
     for p_ in pool:
         try:
             got = g.password_to_scalar(p_)
